@@ -137,6 +137,12 @@ def Rule.apply (env : Env) (name : Str) : Rule → Option Str
   | .lastSegInSf => if env.sf.contains (lastSeg name) then some (lastSeg name) else none
   | .endsWith suf fa => if hasSuffix name suf then some fa else none
 
+/-- does the test of a rule hold -/
+def Rule.fires (env : Env) (name : Str) : Rule → Bool
+  | .tableRegex _ => tableMatch env.word name
+  | .lastSegInSf => env.sf.contains (lastSeg name)
+  | .endsWith suf _ => hasSuffix name suf
+
 /-- `_infer_force_as_from_rfilename(rfilename)`: first rule that fires; `else: raise <elseErr>`. -/
 def inferForceAs (rules : List Rule) (elseErr : Err) (env : Env) (name : Str) : Except Err Str :=
   match rules.findSome? (Rule.apply env name) with
